@@ -26,7 +26,9 @@ PROP = {  # commit subject keyword -> property
     "an accumulator used as a source operand": "C05", "64 KiB code buffer": "C05", "instruction queue grew by ten": "C05", "fixup tables": "C05", "constant table (ORC_N_CONSTANTS": "C05",
     "name the fourth accumulator a4": "C07", "orcc --compat below 0.4.6.1": "C07", "calls to a .backup function": "C07",
     "NEON 16-bit accumulator reduction": "C12",
-    "operand named nan/inf": "C15", "computed the 16.16 position in 32 bits": "C04",
+    "operand named nan/inf": "C15", "name starting with an underscore were merged": "C15", "an alignment of 0 set through": "C15",
+    "NEON listing claimed 256-bit alignment": "C12", "skipped the sixteenth temporary": "C14", "took any text as the number of a directive": "C14",
+    "opcode set handles went stale": "C20", "computed the 16.16 position in 32 bits": "C04",
     "prefixed loadX/storeX read and wrote the wrong elements": "C02", "__sync implementation of OrcOnce": "C08",
     "kept the previous code attached": "C05", "emitters wrote past the 64 KiB": "C05", "literal-pool labels were allocated twice": "C05",
     "zero or negative size": "C05", "flag bits reserved for the compiler": "C05",
